@@ -2,6 +2,13 @@
 
 package hclsyntax
 
+import (
+	"fmt"
+	"os"
+	"strings"
+	"sync"
+)
+
 // VerifHook, when set, observes internal events of the parser and of splat
 // evaluation. It exists only in builds with the "verif" tag and is used by
 // external conformance checking; it must be set before any concurrent use.
@@ -16,5 +23,30 @@ var VerifHook func(ev string, obj, ctx, arg any)
 func verifHook(ev string, obj, ctx, arg any) {
 	if h := VerifHook; h != nil {
 		h(ev, obj, ctx, arg)
+	}
+}
+
+// When HCL_VERIF_TRACE names a file, every process built with the "verif" tag
+// (for example this module's own test binaries) appends the parser events it
+// performs to that file, one JSON object per line, so that the traces of
+// existing tests can be validated against the specification.
+func init() {
+	path := os.Getenv("HCL_VERIF_TRACE")
+	if path == "" {
+		return
+	}
+	f, err := os.OpenFile(path, os.O_CREATE|os.O_WRONLY|os.O_APPEND, 0o644)
+	if err != nil {
+		return
+	}
+	var mu sync.Mutex
+	pid := os.Getpid()
+	VerifHook = func(ev string, obj, ctx, arg any) {
+		if !strings.HasPrefix(ev, "peeker.") && ev != "parser.recovery" {
+			return
+		}
+		mu.Lock()
+		defer mu.Unlock()
+		fmt.Fprintf(f, "{\"ev\":%q,\"o\":\"%d/%p\",\"arg\":\"%v\"}\n", ev, pid, obj, arg)
 	}
 }
